@@ -5,7 +5,7 @@ use crate::refimpl::ss2022::C22;
 use crate::refimpl::Addr;
 use anyhow::{anyhow, Result};
 use bytes::BytesMut;
-use octo_squirrel::codec::shadowsocks::udp::{AEADCipherCodec, Context as UdpContext, Session as UdpSession, SessionCodec};
+use octo_squirrel::codec::shadowsocks::udp::{Context as UdpContext, Session as UdpSession, SessionCodec};
 use octo_squirrel::config::ServerConfig;
 use octo_squirrel::manager::shadowsocks::{ServerUser, ServerUserManager};
 use octo_squirrel::protocol::address::Address;
@@ -341,44 +341,27 @@ impl<const N: usize> ClientUdpDyn for ClientUdpImpl<N> {
     }
 }
 
-/// Keys are leaked, address-stable allocations exactly as `Client::new_static` does (the implementation's
-/// cipher cache is keyed by key *address*).
-pub struct ClientUdpCtx {
-    n: usize,
-    kind: octo_squirrel::codec::aead::CipherKind,
-    key16: Option<(&'static [u8; 16], &'static Vec<[u8; 16]>)>,
-    key32: Option<(&'static [u8; 32], &'static Vec<[u8; 32]>)>,
+/// Built by the real `Client::new_static` (which leaks address-stable keys: the implementation's cipher cache is
+/// keyed by key *address*).
+pub enum ClientUdpCtx {
+    C16(cv::shadowsocks::udp::Client<'static, 16>),
+    C32(cv::shadowsocks::udp::Client<'static, 32>),
 }
 
 impl ClientUdpCtx {
-    /// Mirrors client/shadowsocks.rs::udp::Client::new_static (password_to_keys for every cipher).
     pub fn new(cred: &Cred) -> Result<ClientUdpCtx> {
         let cfg = cred.client_cfg()?;
-        let n = cred.proto.key_len();
-        let mut c = ClientUdpCtx { n, kind: cfg.cipher, key16: None, key32: None };
-        if n == 16 {
-            let (k, ik) = password_to_keys::<16>(&cfg.password).map_err(|e| anyhow!(e))?;
-            c.key16 = Some((Box::leak(Box::new(k)), Box::leak(Box::new(ik))));
+        Ok(if cred.proto.key_len() == 16 {
+            ClientUdpCtx::C16(cv::shadowsocks::udp::Client::<16>::new_static(cfg)?)
         } else {
-            let (k, ik) = password_to_keys::<32>(&cfg.password).map_err(|e| anyhow!(e))?;
-            c.key32 = Some((Box::leak(Box::new(k)), Box::leak(Box::new(ik))));
-        }
-        Ok(c)
+            ClientUdpCtx::C32(cv::shadowsocks::udp::Client::<32>::new_static(cfg)?)
+        })
     }
-    /// New binding codec (mirrors new_plain_outbound without the socket).
+    /// New binding codec (what new_plain_outbound builds, without the socket).
     pub fn codec(&self) -> Box<dyn ClientUdpDyn> {
-        if self.n == 16 {
-            let (k, ik) = self.key16.unwrap();
-            Box::new(ClientUdpImpl::<16>(cv::shadowsocks::udp::DatagramPacketCodec::new(SessionCodec::new(
-                UdpContext::new(Mode::Client, None, &k[..], &ik[..]),
-                AEADCipherCodec::new(self.kind),
-            ))))
-        } else {
-            let (k, ik) = self.key32.unwrap();
-            Box::new(ClientUdpImpl::<32>(cv::shadowsocks::udp::DatagramPacketCodec::new(SessionCodec::new(
-                UdpContext::new(Mode::Client, None, &k[..], &ik[..]),
-                AEADCipherCodec::new(self.kind),
-            ))))
+        match self {
+            ClientUdpCtx::C16(c) => Box::new(ClientUdpImpl::<16>(c.verif_new_codec())),
+            ClientUdpCtx::C32(c) => Box::new(ClientUdpImpl::<32>(c.verif_new_codec())),
         }
     }
 }
@@ -410,10 +393,18 @@ impl<const N: usize> ServerUdpDyn for ServerUdpImpl<N> {
 }
 
 fn server_udp_n<const N: usize>(cred: &Cred) -> Result<Box<dyn ServerUdpDyn>> {
-    // mirrors server/shadowsocks.rs::startup_udp
+    // mirrors server/shadowsocks.rs::startup_udp (its key derivation is inline there and cannot be called; the system
+    // engine exercises the real start-up path)
     let cfg = cred.server_cfg()?;
     let um = user_manager::<N>(&cfg)?;
-    let (key, identity_keys) = password_to_keys::<N>(&cfg.password).map_err(|e| anyhow!(e))?;
+    // user keys live for the whole process in the real server; the implementation's cipher cache is keyed by key
+    // *address*, so the harness must never let a user key's address be reused by another key
+    std::mem::forget(um.clone());
+    let (key, identity_keys) = if cfg.cipher.is_aead_2022() {
+        password_to_keys::<N>(&cfg.password).map_err(|e| anyhow!(e))?
+    } else {
+        (octo_squirrel::protocol::shadowsocks::aead::openssl_bytes_to_key(cfg.password.as_bytes()), Vec::new())
+    };
     let key: &'static [u8; N] = Box::leak(Box::new(key));
     let identity_keys: &'static Vec<[u8; N]> = Box::leak(Box::new(identity_keys));
     let mut users = HashMap::new();
